@@ -242,8 +242,10 @@ example : parsePublicKey noPts wCanon = some (.cert wCert) := by
     refine ⟨?_, ?_, rfl, ?_, ?_, ?_, ?_, ?_, ?_, ?_, ?_, ?_, ?_, ?_, ?_, ?_, ?_, ?_, ?_, ?_, ?_⟩
     all_goals first
       | decide
-      | (intro p hp; cases hp)
-      | (intro kv hkv; simp only [wCert, List.mem_singleton] at hkv; subst hkv; decide)
+      | (show zeros32.length = 32; decide)
+      | (exact ⟨Or.inr rfl, by decide, by decide⟩)
+      | (intro p hp; exact absurd hp List.not_mem_nil)
+      | (intro kv hkv; simp only [wCert, List.mem_singleton] at hkv; subst hkv; exact ⟨by decide, by decide⟩)
   exact marshal_parse noPts wCert _ hw wCanon (by decide +kernel)
 
 /-- The full property as stated: for every received blob that parses, the decision is the one
